@@ -60,7 +60,7 @@ class Ctx:
         self.tier = tier
         self.quick = tier == 'quick'
         self.seed = seed
-        self.nproc = nproc or int(os.environ.get('VERIF_NPROC', os.cpu_count() or 4))
+        self.nproc = nproc or int(os.environ.get('VERIF_NPROC', 0)) or self._auto_nproc()
         self.t0 = time.time()
         self.cov = {}            # coverage dict (check fills in)
         self.assumptions = []
@@ -68,6 +68,17 @@ class Ctx:
         self.notes = []
         self._scratch = None
         self._pool = None
+
+    @staticmethod
+    def _auto_nproc():
+        """All cores on an idle machine; a quarter of them when the box is already oversubscribed
+        (several checks being developed side by side) so that runs do not starve each other."""
+        cpu = os.cpu_count() or 4
+        try:
+            load = os.getloadavg()[0]
+        except OSError:
+            load = 0.0
+        return cpu if load < 1.5 * cpu else max(4, cpu // 4)
 
     # -- scratch -----------------------------------------------------------
     @property
